@@ -34,7 +34,10 @@ func slotsOf(steps []stepSpec) []slot {
 			res = append(res, slot{i, tRecords, k})
 		}
 		for k := 1; k <= 2; k++ {
-			res = append(res, slot{i, tView, k}, slot{i, tWLog, k})
+			res = append(res, slot{i, tWLog, k})
+		}
+		for k := 1; k <= 2*numProj; k++ { // one view write per sync projector, and as many in a recovery
+			res = append(res, slot{i, tView, k})
 		}
 	}
 	return res
@@ -215,12 +218,17 @@ func Generate(seed uint64, n int, tier, corpusDir string, shard int, out *kit.Ou
 	}
 	// can the slot's write be issued when this is the only fault (no recovery unless a restart precedes)?
 	reachable := func(tl int, base []stepSpec, s slot) bool {
-		own := 1
-		if s.target == tRecords && tl == 0 {
+		own, rec := 1, 1
+		switch {
+		case s.target == tRecords && tl == 0:
 			own = len(base[s.cmd].Ops)
+		case s.target == tView:
+			own, rec = numProj, numProj
+		case s.target == tPLog:
+			rec = 0
 		}
 		if s.cmd > 0 && base[s.cmd-1].Kind != "cmd" && s.cmd > 1 {
-			own++ // re-apply of the last event by the new processor
+			own += rec // re-apply of the last event by the new processor
 		}
 		return s.k <= own
 	}
@@ -280,23 +288,31 @@ func Generate(seed uint64, n int, tier, corpusDir string, shard int, out *kit.Ou
 		}
 		// a fault that drops the partition state, then a fault inside the recovery the next command runs
 		firsts := []fk{{slot{0, tRecords, 2}, fAfter}, {slot{1, tRecords, 2}, fBefore}, {slot{1, tView, 1}, fBefore},
-			{slot{1, tWLog, 1}, fAfter}, {slot{1, tPLog, 1}, fAfter}}
+			{slot{1, tView, 2}, fAfter}, {slot{1, tView, 3}, fBefore}, {slot{1, tWLog, 1}, fAfter}, {slot{1, tPLog, 1}, fAfter}}
+		maxK := func(t int) int {
+			if t == tView {
+				return numProj
+			}
+			return 1
+		}
 		for _, f1 := range firsts {
 			for _, t := range []int{tRecords, tView, tWLog} {
-				for _, kind := range []int{fBefore, fAfter} {
-					if err := run(0, withFaults(base, f1, fk{slot{f1.s.cmd + 1, t, 1}, kind}), "fault, then fault during recovery"); err != nil {
-						return err
+				for k := 1; k <= maxK(t); k++ {
+					for _, kind := range []int{fBefore, fAfter} {
+						if err := run(0, withFaults(base, f1, fk{slot{f1.s.cmd + 1, t, k}, kind}), "fault, then fault during recovery"); err != nil {
+							return err
+						}
 					}
 				}
 			}
 		}
 		// a restart at a command boundary: the new processor re-applies a complete last event; faults in
-		// that recovery (k=1) and in the command's own writes after it (k=2)
+		// that recovery and in the command's own writes after it
 		for _, rk := range []string{"restart", "restart_all"} {
 			for pos := 1; pos <= 2; pos++ {
 				h := append(append(append([]stepSpec{}, base[:pos]...), stepSpec{Kind: rk}), base[pos:]...)
 				for _, t := range []int{tRecords, tView, tWLog} {
-					for k := 1; k <= 2; k++ {
+					for k := 1; k <= 2*maxK(t); k++ {
 						for _, kind := range []int{fBefore, fAfter} {
 							if err := run(pos%3, withFaults(h, fk{slot{pos + 1, t, k}, kind}), "restart, then fault"); err != nil {
 								return err
